@@ -239,3 +239,50 @@ impl Semaphore {
         &self.0
     }
 }
+
+macro_rules! verif_atomic {
+    ($name:ident, $inner:ty, $int:ty, $doc:expr) => {
+        #[doc = $doc]
+        #[derive(Debug)]
+        pub struct $name($inner);
+
+        impl $name {
+            /// See the std type.
+            pub const fn new(v: $int) -> Self {
+                Self(<$inner>::new(v))
+            }
+            /// See the std type; an implicit schedule point.
+            pub fn load(&self, o: std::sync::atomic::Ordering) -> $int {
+                shared_op("!atomic.load");
+                self.0.load(o)
+            }
+            /// See the std type; an implicit schedule point.
+            pub fn fetch_add(&self, v: $int, o: std::sync::atomic::Ordering) -> $int {
+                shared_op("!atomic.update");
+                self.0.fetch_add(v, o)
+            }
+            /// See the std type; an implicit schedule point.
+            pub fn fetch_sub(&self, v: $int, o: std::sync::atomic::Ordering) -> $int {
+                shared_op("!atomic.update");
+                self.0.fetch_sub(v, o)
+            }
+            /// Reads the value for observation: not a schedule point.
+            pub fn raw_load(&self) -> $int {
+                self.0.load(std::sync::atomic::Ordering::SeqCst)
+            }
+        }
+    };
+}
+
+verif_atomic!(
+    AtomicUsize,
+    std::sync::atomic::AtomicUsize,
+    usize,
+    "`std::sync::atomic::AtomicUsize` whose operations are implicit schedule points."
+);
+verif_atomic!(
+    AtomicIsize,
+    std::sync::atomic::AtomicIsize,
+    isize,
+    "`std::sync::atomic::AtomicIsize` whose operations are implicit schedule points."
+);
